@@ -27,7 +27,7 @@ FLAGBITS = {
 }
 KINDS = ["reg", "reg", "reg", "reg-space", "reg-deleted-gone", "reg-deleted-kept",
          "reg-deleted-literal", "relative", "dir", "chardev", "socket", "pipe",
-         "anon_inode", "missing-target", "reg-nul", "reg-devshm"]
+         "anon_inode", "missing-target", "reg-nul", "reg-devshm", "reg-symlink"]
 
 IO_NAMES = ["rchar", "wchar", "syscr", "syscw", "read_bytes", "write_bytes",
             "cancelled_write_bytes"]
@@ -79,6 +79,10 @@ def target_of(kind, fd):
     if kind == "reg-devshm":
         # a regular file that lives under /dev (POSIX shared memory, semaphores)
         return f"/dev/shm/psv-{fd}", f"/dev/shm/psv-{fd}"
+    if kind == "reg-symlink":
+        # the reported path has since become a symbolic link to a regular
+        # file ("current.log -> log.2024"): the regular-file test follows it
+        return f"{ROOT}/links/current{fd}.log", f"{ROOT}/links/current{fd}.log"
     if kind == "reg-space":
         return f"{ROOT}/my dir/file {fd}.txt", f"{ROOT}/my dir/file {fd}.txt"
     if kind == "reg-deleted-gone":
@@ -147,6 +151,9 @@ def build(case):
             k.set_file(listed_path, b"data")
         elif d["kind"] == "reg-deleted-literal":
             k.set_file(listed_path, b"data")
+        elif d["kind"] == "reg-symlink":
+            k.set_file(f"{ROOT}/links/dated{fd}.log", b"data")
+            k.set_file(listed_path, simk.Link(f"{ROOT}/links/dated{fd}.log"))
         elif d["kind"] == "dir":
             k.mkdir(tgt)
         if listed_path is not None:
